@@ -10,8 +10,11 @@ for k in (0, 2):
     HARNESSES += [SRC(x, k, extra=['-DEXPECT_NO_HANDLER_AFTER_CANCEL', '-DHANDLER_RUNS_EXPECTED=1'], name_extra='_hc') for x in ('mR^C', 'mR^Cm', 'mR^CmR', 'mmR^CRm', 'mR^CC')]
     HARNESSES += [SRC(x, k, extra=['-DCANCEL_BEFORE_ACTIVATE'], name_extra='_cba') for x in ('R', 'm', 'mR', 'C', 'mC')]
     HARNESSES += [SRC(x, k, extra=['-DREG_MERGE_CANCEL', '-DEXPECT_NO_HANDLER_AFTER_CANCEL', '-DHANDLER_RUNS_EXPECTED=0'], name_extra='_reg') for x in ('R', 'mR', 'RmR')]
+    # dispatch_source_cancel_and_wait (no cancel handler installed: the library forbids combining the two): alone, after an asynchronous cancel still in flight, twice, with events pending / delivered, before activation
+    HARNESSES += [SRC(x, k, extra=['-DNO_CANCEL_HANDLER'], name_extra='_caw') for x in ('W', 'CW', 'mW', 'mCW', 'mRW', 'mCRW', 'WW', 'WC', 'WmR', 'CWmR', 'mRCWm')]
+    HARNESSES += [SRC(x, k, extra=['-DNO_CANCEL_HANDLER', '-DCANCEL_BEFORE_ACTIVATE'], name_extra='_caw_cba') for x in ('W', 'WmR')]
 HARNESSES += [SRC(x, 0, tiers=('thorough',)) for x in ('mRmCmR', 'mCRmCR', 'SmCmrR', 'mRmR^CmRm')]
 ASSUMPTIONS = c15.ASSUMPTIONS + ['source types: custom data sources only; timer, read, write and signal sources (manager thread, epoll registration order) are outside this check',
-   'dispatch_source_cancel_and_wait is not exercised']
+   'dispatch_source_cancel_and_wait: only from the client thread, without a cancel handler (the combination is a documented client crash), never while the source is suspended (documented crash)']
 LEVEL_TEXT = 'Tier H on data sources driven through the real API: cancel from a client thread at every point of the life cycle, twice, before activation, from the event handler and from a registration handler that merges and cancels: the cancel handler runs exactly once, on the target queue, after the last event handler returned; no event handler starts after it; after a cancel issued from the handler / an item on the target queue the event handler is not invoked again.'
-LEVEL_NOTE = 'Custom data sources only: timer/read/write/signal sources, the manager thread, epoll registration order and dispatch_source_cancel_and_wait are NOT covered (the seeded fd-source change C16_m2 is outside this check).'
+LEVEL_NOTE = 'Custom data sources only: timer/read/write/signal sources, the manager thread, and epoll registration order are NOT covered.'
